@@ -946,6 +946,60 @@ fn optimizer_equiv(seed: u64) -> serde_json::Value {
     json!({"found": false, "routine": "optimizer_equiv", "tried": tried})
 }
 
+// C10: matmul with NumPy broadcasting of the batch dimensions vs. an independent reference
+fn matmul_ref(seed: u64) -> serde_json::Value {
+    use ciphercore_base::graphs::util::simple_context;
+    let mut rng = Rng(seed | 1);
+    let mut tried = 0u64;
+    let shapes: Vec<(Vec<u64>, Vec<u64>)> = vec![(vec![3], vec![3]), (vec![2, 3], vec![3, 4]), (vec![3], vec![3, 2]), (vec![2, 3], vec![3]), (vec![2, 3], vec![5, 3, 4]), (vec![4, 2, 3], vec![3, 2]),
+        (vec![2, 1, 2, 3], vec![4, 3, 2]), (vec![3, 2, 2], vec![2, 3, 2, 2]), (vec![3], vec![2, 3, 2]), (vec![2, 2, 3], vec![3])];
+    for st in [INT32, UINT64, BIT, UINT128] {
+        let m = st.get_modulus();
+        for (s0, s1) in &shapes {
+            tried += 1;
+            let n0: u64 = s0.iter().product(); let n1: u64 = s1.iter().product();
+            let gen = |rng: &mut Rng, n: u64| -> Vec<u128> { (0..n).map(|_| { let x = ((rng.next() as u128) << 64) | rng.next() as u128; match m { Some(mm) => x % mm, None => x } }).collect() };
+            let a = gen(&mut rng, n0); let b = gen(&mut rng, n1);
+            let (t0, t1) = (array_type(s0.clone(), st), array_type(s1.clone(), st));
+            let r = catch_unwind(AssertUnwindSafe(|| -> Result<(Vec<u128>, Type)> {
+                let c = simple_context(|g| { let x = g.input(t0.clone())?; let y = g.input(t1.clone())?; x.matmul(y) })?;
+                let rt = c.get_main_graph()?.get_output_node()?.get_type()?;
+                let out = random_evaluate(c.get_main_graph()?, vec![Value::from_flattened_array(&a, st)?, Value::from_flattened_array(&b, st)?])?;
+                let flat = if rt.is_scalar() { vec![out.to_u128(st)?] } else { out.to_flattened_array_u128(rt.clone())? };
+                Ok((flat, rt))
+            }));
+            let (got, rt) = match r { Ok(Ok(x)) => x, Ok(Err(e)) => return json!({"found": true, "routine": "matmul_ref", "property": "C10", "input": {"shapes": [s0, s1], "scalar_type": format!("{}", st)}, "observed": format!("error: {}", e)}),
+                Err(_) => return json!({"found": true, "routine": "matmul_ref", "property": "C10", "input": {"shapes": [s0, s1], "scalar_type": format!("{}", st)}, "observed": "panic"}) };
+            // reference: pad rank-1 operands, right-align batch dimensions, broadcast dimensions of size 1
+            let p0: Vec<u64> = if s0.len() == 1 { vec![1, s0[0]] } else { s0.clone() }; let p1: Vec<u64> = if s1.len() == 1 { vec![s1[0], 1] } else { s1.clone() };
+            let (rows, mid, cols) = (p0[p0.len() - 2], p0[p0.len() - 1], p1[p1.len() - 1]);
+            let (b0, b1) = (&p0[..p0.len() - 2], &p1[..p1.len() - 2]);
+            let nb = b0.len().max(b1.len());
+            let bd: Vec<u64> = (0..nb).map(|k| { let d0 = if k + b0.len() >= nb { b0[k + b0.len() - nb] } else { 1 }; let d1 = if k + b1.len() >= nb { b1[k + b1.len() - nb] } else { 1 }; d0.max(d1) }).collect();
+            let nbatch: u64 = bd.iter().product();
+            let mut want: Vec<u128> = vec![];
+            let reduce = |x: u128| match m { Some(mm) => x % mm, None => x };
+            for bi in 0..nbatch {
+                let mut idx = vec![0u64; nb]; let mut rem = bi; for k in (0..nb).rev() { idx[k] = rem % bd[k]; rem /= bd[k]; }
+                let off = |bs: &[u64]| -> u64 { let mut o = 0u64; for k in 0..bs.len() { let d = bs[k]; let i = idx[k + nb - bs.len()] % d; o = o * d + i; } o };
+                let (o0, o1) = (off(b0), off(b1));
+                for rr in 0..rows { for cc in 0..cols {
+                    let mut acc: u128 = 0;
+                    for j in 0..mid { let x = a[((o0 * rows + rr) * mid + j) as usize]; let y = b[((o1 * mid + j) * cols + cc) as usize];
+                        let pm = match m { Some(mm) => (x % mm) * (y % mm) % mm, None => x.wrapping_mul(y) }; acc = reduce(acc.wrapping_add(pm)); }
+                    want.push(acc);
+                } }
+            }
+            let got: Vec<u128> = got.into_iter().map(reduce).collect();
+            if got != want {
+                return json!({"found": true, "routine": "matmul_ref", "property": "C10", "input": {"shapes": [s0, s1], "scalar_type": format!("{}", st), "result_type": format!("{}", rt), "a": a.iter().map(|x| x.to_string()).collect::<Vec<_>>(), "b": b.iter().map(|x| x.to_string()).collect::<Vec<_>>()},
+                    "expected": want.iter().map(|x| x.to_string()).collect::<Vec<_>>(), "observed": got.iter().map(|x| x.to_string()).collect::<Vec<_>>(), "what": "Matmul evaluated by SimpleEvaluator vs. a reference with right-aligned batch broadcasting"});
+            }
+        }
+    }
+    json!({"found": false, "routine": "matmul_ref", "tried": tried})
+}
+
 // C14: per-party shares reconstruct the secret, for scalars, arrays (incl. bits and 128-bit) and nested containers
 fn share_roundtrip(seed: u64) -> serde_json::Value {
     use ciphercore_base::random::PRNG;
@@ -999,6 +1053,7 @@ fn main() {
         Some("arith_kernels") => arith_kernels(seed),
         Some("cmp_small_widths") => cmp_small_widths(seed),
         Some("share_roundtrip") => share_roundtrip(seed),
+        Some("matmul_ref") => matmul_ref(seed),
         Some("optimizer_equiv") => optimizer_equiv(seed),
         Some("perm_roundtrip") => perm_roundtrip(seed),
         Some("json_roundtrip") => json_roundtrip(seed),
